@@ -2,7 +2,7 @@ SPECIFICATION Spec
 CONSTANTS
   KindNames = {"status", "config.get", "config.set", "io.read", "io.write", "io.force", "hmi.write", "hmi.values.get",
                "pause", "resume", "step_in", "breakpoints.set", "breakpoints.clear_all", "breakpoints.list",
-               "eval", "set", "var.force", "var.unforce", "var.forced", "debug.state", "debug.evaluate",
+               "eval", "set", "var.force", "var.unforce", "var.forced", "debug.state", "debug.stack",
                "restart", "shutdown", "bytecode.reload", "pair.start", "pair.list", "pair.revoke", "zq.unknown"}
   TypeNames = {"unused"}
   ReqRoles = {0}
